@@ -224,7 +224,7 @@ pub const STRUCT_ALPHA: [u8; 19] = [
 ];
 
 fn c03(thorough: bool, rng: &mut Rng, out: &mut Out) {
-    out.rule = "(i) every string of length <= L over the 19-symbol structural alphabet (L=3 quick, 4 thorough); (ii) the same strings spliced as prefix / suffix / infix into seed encodings; (iii) single substitutions / deletions / duplications of seed encodings; (iv) random byte strings <= 600 bytes and random multi-edits of valid encodings; non-trivial = the string starts with ':' and is at least 11 bytes long (reaches past the first structural rejection); distinct = distinct case line".into();
+    out.rule = "(i) every string of length <= L over the 19-symbol structural alphabet (L=3 quick, 4 thorough); (ii) the same strings spliced as prefix / suffix / infix into seed encodings; (iii) single substitutions / deletions / duplications of seed encodings; (iv) random byte strings <= 600 bytes and random multi-edits of valid encodings; (v) 26 multi-byte UTF-8 look-alikes (non-ASCII decimal digits, fullwidth hex letters / colon, Unicode separators, BOM) substituted for one or two bytes at, or inserted at, every position of the seed encodings; non-trivial = the string starts with ':' and is at least 11 bytes long (reaches past the first structural rejection); distinct = distinct case line".into();
     out.exhaustive_note = "(i) is enumerated completely".into();
     let maxlen = if thorough { 4 } else { 3 };
     // (i)
@@ -290,6 +290,71 @@ fn c03(thorough: bool, rng: &mut Rng, out: &mut Out) {
             let mut two = base.clone();
             two.extend_from_slice(&base);
             let _ = dec_case(out, &two, true, "C03");
+        }
+    }
+    // (v) look-alikes: multi-byte UTF-8 sequences that text classes such as \d, \s, \w or a
+    // case-insensitive flag would accept (non-ASCII decimal digits, fullwidth hex letters and colon,
+    // Unicode line / space separators, a byte-order mark), put into every position of a seed
+    // encoding, alone and in adjacent pairs; plus truncated / overlong encodings of the same
+    const LOOKALIKES: [&str; 26] = [
+        "\u{0660}", "\u{0661}", "\u{0669}", "\u{06F7}", "\u{0966}", "\u{09EA}", "\u{0E53}", "\u{FF10}", "\u{FF19}", "\u{1D7CE}", "\u{1D7FF}",
+        "\u{FF21}", "\u{FF26}", "\u{FF41}", "\u{FF46}", "\u{212A}", "\u{017F}", "\u{FF1A}", "\u{00A0}", "\u{0085}", "\u{2028}", "\u{2029}", "\u{3000}",
+        "\u{FEFF}", "\u{00B2}", "\u{2460}",
+    ];
+    for seed in &seeds {
+        for nl in [false, true] {
+            let mut base = seed.clone();
+            if nl {
+                base.extend_from_slice(b"\r\n");
+            }
+            for (li, la) in LOOKALIKES.iter().enumerate() {
+                if !thorough && li % 2 == 1 && li < 16 {
+                    continue;
+                }
+                let la = la.as_bytes();
+                for pos in 0..=base.len() {
+                    // substitution of one byte, of two adjacent bytes, and insertion
+                    if pos < base.len() {
+                        let mut r = base[..pos].to_vec();
+                        r.extend_from_slice(la);
+                        r.extend_from_slice(&base[pos + 1..]);
+                        out.stat("lookalike.subst1");
+                        let _ = dec_case(out, &r, true, "C03");
+                    }
+                    if pos + 1 < base.len() {
+                        let mut r = base[..pos].to_vec();
+                        r.extend_from_slice(la);
+                        r.extend_from_slice(la);
+                        r.extend_from_slice(&base[pos + 2..]);
+                        out.stat("lookalike.subst2");
+                        let _ = dec_case(out, &r, true, "C03");
+                    }
+                    if thorough || pos == 0 || pos == 1 || pos + 2 >= base.len() {
+                        let mut r = base[..pos].to_vec();
+                        r.extend_from_slice(la);
+                        r.extend_from_slice(&base[pos..]);
+                        out.stat("lookalike.insert");
+                        let _ = dec_case(out, &r, true, "C03");
+                    }
+                }
+                // every hex digit replaced
+                let mut r = vec![];
+                for &b in &base {
+                    if b.is_ascii_hexdigit() {
+                        r.extend_from_slice(la);
+                    } else {
+                        r.push(b);
+                    }
+                }
+                let _ = dec_case(out, &r, true, "C03");
+                // truncated sequence (invalid UTF-8) in a digit slot
+                if la.len() > 1 && base.len() > 4 {
+                    let mut r = base[..3].to_vec();
+                    r.extend_from_slice(&la[..la.len() - 1]);
+                    r.extend_from_slice(&base[4..]);
+                    let _ = dec_case(out, &r, true, "C03");
+                }
+            }
         }
     }
     // (iii)+(iv) random
@@ -987,57 +1052,76 @@ fn c06(thorough: bool, rng: &mut Rng, out: &mut Out) {
             for _ in 0..nops {
                 let x = rng.below(w as u64) as u32;
                 let y = rng.below(h as u64) as u32;
-                match rng.below(10) {
+                let kind = rng.below(10);
+                let v = if kind == 0 { rng.chance(50) } else { rng.chance(60) };
+                let probes: Vec<(u32, u32)> = (0..16).map(|_| (rng.below(w as u64) as u32, rng.below(h as u64) as u32)).collect();
+                match kind {
                     0 => {
-                        let v = rng.chance(50);
-                        page.set_all_pixels(v);
-                        for col in shadow.iter_mut() {
-                            for c in col.iter_mut() {
-                                *c = v;
-                            }
-                        }
                         line.push_str(&format!(" a,{}", v as u8));
                         out.stat("op.setall");
                     }
                     1 | 2 => {
                         line.push_str(&format!(" g,{},{}", x, y));
                         out.stat("op.get");
-                        if page.get_pixel(x, y) != shadow[x as usize][y as usize] {
-                            problems.push(format!("get({},{}) wrong", x, y));
-                        }
                     }
                     _ => {
-                        let v = rng.chance(60);
-                        page.set_pixel(x, y, v);
-                        shadow[x as usize][y as usize] = v;
                         line.push_str(&format!(" s,{},{},{}", x, y, v as u8));
                         out.stat(if v { "op.set" } else { "op.clear" });
-                        if page.get_pixel(x, y) != v {
-                            problems.push(format!("set({},{},{}) not read back", x, y, v));
-                        }
                     }
                 }
-                // every pixel equals the shadow (sampled on big pages)
-                if !big {
-                    for xx in 0..w {
-                        for yy in 0..h {
-                            if page.get_pixel(xx, yy) != shadow[xx as usize][yy as usize] {
-                                problems.push(format!("pixel ({},{}) changed by an operation on another pixel", xx, yy));
+                // the implementation is called under catch_unwind: an in-bounds operation that panics is itself a failure
+                let step = std::panic::catch_unwind(std::panic::AssertUnwindSafe(|| {
+                    let mut problems: Vec<String> = vec![];
+                    match kind {
+                        0 => {
+                            page.set_all_pixels(v);
+                            for col in shadow.iter_mut() {
+                                for c in col.iter_mut() {
+                                    *c = v;
+                                }
+                            }
+                        }
+                        1 | 2 => {
+                            if page.get_pixel(x, y) != shadow[x as usize][y as usize] {
+                                problems.push(format!("get({},{}) wrong", x, y));
+                            }
+                        }
+                        _ => {
+                            page.set_pixel(x, y, v);
+                            shadow[x as usize][y as usize] = v;
+                            if page.get_pixel(x, y) != v {
+                                problems.push(format!("set({},{},{}) not read back", x, y, v));
                             }
                         }
                     }
-                } else {
-                    for _ in 0..16 {
-                        let xx = rng.below(w as u64) as u32;
-                        let yy = rng.below(h as u64) as u32;
-                        if page.get_pixel(xx, yy) != shadow[xx as usize][yy as usize] {
-                            problems.push(format!("pixel ({},{}) changed by an operation on another pixel", xx, yy));
+                    // every pixel equals the shadow (sampled on big pages)
+                    if !big {
+                        for xx in 0..w {
+                            for yy in 0..h {
+                                if page.get_pixel(xx, yy) != shadow[xx as usize][yy as usize] {
+                                    problems.push(format!("pixel ({},{}) differs from the shadow after this operation", xx, yy));
+                                }
+                            }
+                        }
+                    } else {
+                        for &(xx, yy) in &probes {
+                            if page.get_pixel(xx, yy) != shadow[xx as usize][yy as usize] {
+                                problems.push(format!("pixel ({},{}) differs from the shadow after this operation", xx, yy));
+                            }
                         }
                     }
-                }
-                let now = page.as_bytes();
-                if now.len() != before.len() || now[..4] != before[..4] || now[data..] != before[data..] || page.width() != w || page.height() != h {
-                    problems.push("id / header / padding / length / dimensions changed".into());
+                    let now = page.as_bytes();
+                    if now.len() != before.len() || now[..4] != before[..4] || now[data..] != before[data..] || page.width() != w || page.height() != h {
+                        problems.push("id / header / padding / length / dimensions changed".into());
+                    }
+                    problems
+                }));
+                match step {
+                    Ok(ps) => problems.extend(ps),
+                    Err(_) => {
+                        problems.push("an in-bounds operation panicked".into());
+                        break;
+                    }
                 }
                 // unused high bits of the last byte of each column must not change either
                 if problems.len() > 3 {
